@@ -29,7 +29,9 @@ def _q(fr: Fraction) -> str:
 
 
 class Lowerer:
-    def __init__(self):
+    def __init__(self, cuts=None, divvar=False):
+        self.divvar = divvar  # True: every quotient is a fresh real q with q*den = num (no cross-multiplication)
+        self.cuts = cuts or {}  # nid -> True : nodes abstracted by a fresh real (shared-subterm abstraction)
         self.defs = {}  # name -> (expr, deps tuple)
         self.order = {}  # name -> creation index
         self.by_expr = {}  # expr -> name
@@ -96,8 +98,27 @@ class Lowerer:
         return s
 
     # ------------------------------------------------------------------ nodes
+    def _reach(self, roots):
+        if not self.cuts:
+            return reachable(roots)
+        seen = {}
+        stack = [r for r in roots if isinstance(r, Sym)]
+        while stack:
+            n = stack.pop()
+            if n.nid in seen:
+                continue
+            seen[n.nid] = n
+            if n.nid in self.cuts:
+                continue
+            for a in n.args:
+                if isinstance(a, Sym):
+                    stack.append(a)
+                elif isinstance(a, SymBool):
+                    stack.extend(bool_syms(a))
+        return [seen[k] for k in sorted(seen)]
+
     def lower(self, roots):
-        for n in reachable(roots):
+        for n in self._reach(roots):
             if n.nid in self.node:
                 continue
             self.node[n.nid] = self._lower1(n)
@@ -105,6 +126,8 @@ class Lowerer:
     def _lower1(self, n: Sym):
         op = n.op
         g = self.node
+        if n.nid in self.cuts:
+            return (self.decl("cut#%d" % n.nid, "atom"), None)
         if op == "const":
             fr = n.args[0]
             if fr.denominator == 1:
@@ -130,6 +153,8 @@ class Lowerer:
             d = db if da is None else (da if db is None else self.mulT(da, db))
             # cancel a numeric denominator against an identical factor is not attempted
             return (self.mulT(na, nb), d)
+        if op == "div" and self.divvar:
+            return (self.decl("q#%d" % n.nid, "atom"), None)
         if op == "div":
             (na, da), (nb, db) = g[n.args[0].nid], g[n.args[1].nid]
             num = na if db is None else self.mulT(na, db)
@@ -191,11 +216,21 @@ class Lowerer:
         out = []
         deps = []
         seen_atoms = {}
-        for n in reachable(syms_roots):
+        for n in self._reach(syms_roots):
+            if n.nid in self.cuts:
+                continue
             if n.op == "div":
-                nb, _ = self.node[n.args[1].nid]
+                nb, db_ = self.node[n.args[1].nid]
                 out.append("(not (= %s 0.0))" % nb)
                 deps.append(nb)
+                if self.divvar:
+                    na, da_ = self.node[n.args[0].nid]
+                    q = self.node[n.nid][0]
+                    # q = (na/da_)/(nb/db_)  <=>  q*nb*da_ = na*db_   (numeric denominators only occur for constants)
+                    l = self.mulT(q, nb if da_ is None else self.mulT(nb, da_))
+                    r = na if db_ is None else self.mulT(na, db_)
+                    out.append("(= %s %s)" % (l, r))
+                    deps += [l, r, q]
             s = self.node_atoms.get(n.nid)
             if s is not None and s not in seen_atoms:
                 seen_atoms[s] = n
